@@ -18,7 +18,7 @@ from redress import Budget  # noqa: E402
 
 def op_st():
     return st.one_of(
-        st.tuples(st.just("consume"), st.sampled_from([1, 1, 1, 1, 2, 3])),
+        st.tuples(st.just("consume"), st.sampled_from([1, 1, 1, 1, 2, 3, 30, 63, 64, 65])),
         st.tuples(st.just("remaining")),
         st.tuples(st.just("adv"), st.sampled_from([1, 1, 2, 4, 16])),
         st.tuples(st.just("adv_win"), st.sampled_from([-1, 0, 0, 1])),  # oldest live grant ages to window (+/- 1 tick)
@@ -29,7 +29,7 @@ def op_st():
 @st.composite
 def history_case(draw, max_ops=60):
     return {
-        "max": draw(st.sampled_from([0, 1, 2, 3, 4, 5])),
+        "max": draw(st.sampled_from([0, 1, 2, 3, 4, 5, 1, 2, 3, 64, 65, 66, 130])),
         "window": draw(st.sampled_from([1, 4, 16, 64])),
         "ops": [list(o) for o in draw(st.lists(op_st(), min_size=1, max_size=max_ops))],
     }
@@ -185,7 +185,7 @@ PROP = Property(
     level="exploration",
     rule=(
         "(a) component: model-based histories of consume(cost 1..3)/remaining()/clock advances incl. a symbolic advance that "
-        "ages the oldest live grant to exactly window_s +/- 1 tick, sizes 0..5, windows 1..64 ticks; every return value equals an "
+        "ages the oldest live grant to exactly window_s +/- 1 tick, sizes 0..5 and 64..130 (bulk costs 30..65), windows 1..64 ticks; every return value equals an "
         "independent window model, and after the history the sliding-window bound (#grants in (g-window, g] <= max for every "
         "grant g) holds; invalid costs must raise ValueError; plus exhaustive enumeration of all histories up to length 6/7 "
         "over a 6-letter alphabet for 4 (max, window) pairs. (b) 2-3 different policies (sync and async entry points) sharing one "
